@@ -1,9 +1,9 @@
-CONSTANTS SessCfg <- SessSmall
+CONSTANTS SessCfg <- SessMid
           OneCfg <- SessOne
-          HeapKind = "full"
+          HeapKind = "near"
           Alias = TRUE
           Forms <- FormsFree
-          MaxSteps = 7
+          MaxSteps = 9
           Gen = TRUE
           Memo = "none"
           AllPairs = FALSE
